@@ -108,7 +108,7 @@ class C11(core.Check):
     TRUSTED = ['stdlib html.parser tokenizer (in the loop through recorded handler calls of the formatter)']
     ASSUMPTIONS = ['documents are in C01\'s domain']
     PARTIAL = ['the statement "the output parses back to the same tree" is checked by the oracle through the real parser on every case; the '
-               'theorems are about the formatter\'s own tree (same shape as the parser\'s, text rewritten only by fmt_data outside preserved elements)']
+               'theorems relate the formatter\'s own tree to the parser\'s tree on the same handler calls (simulation), not the re-parse of the output text']
 
     def generate(self):
         rng = self.rng
